@@ -198,7 +198,7 @@ func short(s string) string {
 func TestC12(t *testing.T) {
 	env := kit.GetEnv()
 	rep := kit.NewReport("C12", env)
-	rep.Rule = "every label vector over size-class representatives for hop counts 2..N (full cross product of forward and return labels), plus hop counts up to 131 with every uniform, single-odd-one-out and two-segment class pattern, plus every label value 1..65535 at every position of 3-hop paths; a case is non-trivial when forward and return labels are not all in one size class or the path is at/over the 255-byte limit; distinct = distinct (hops, label vector)"
+	rep.Rule = "every label vector over size-class representatives for hop counts 2..N (full cross product of forward and return labels), plus hop counts up to 131 with every uniform, single-odd-one-out and two-segment class pattern, plus every label value 1..65535 at every position of 3-hop paths; plus, through the real switches of small gossip-converged meshes (lines, star, ring; plain / stub / lite end points; 1- and 2-byte link labels): every learned route followed as a label-switched source route by the routers' own switch code, the block arriving at the destination reversed and a reply sent back along it; plus routes stored by the routing table for 1..100 relays x 6x6 label classes, announced and re-announced with other labels (blocks must be those of the latest labels, oversized re-announcements refused); a case is non-trivial when forward and return labels are not all in one size class or the path is at/over the 255-byte limit; distinct = distinct (hops, label vector)"
 	rep.Assumptions = []string{
 		"labels inside a size class behave like the class representatives {1,127 | 128,16383 | 16384,65535}",
 		"label 0 only at the mandatory positions (a zero forward label in the middle is not a valid path)",
@@ -371,6 +371,9 @@ func TestC12(t *testing.T) {
 		}
 	}
 	rep.Bounds["single_label_sweep"] = "all 65535 values x 4 positions x 3 contexts on 3-hop paths"
+
+	meshPart(t, rep, env, &evals, &nontrivial)
+	storedRoutes(t, rep, env, &evals, &nontrivial)
 
 	rep.Add(evals, nontrivial, 0, 0)
 	if err := rep.Finish(env); err != nil {
